@@ -159,3 +159,22 @@ package css
 //@   requires[S] lexInv(l)
 //@ func NewLexer
 //@   ensures[S]  result != nil && result.r == r
+
+// ---- hash.go (C16): soundness of the perfect hash: a non-zero result names exactly the argument
+//@ func ToHash
+//@   ensures[F,C16] @sound: result != 0 ==> len(s) == (result & 0xff) && forall(k, 0, len(s), _Hash_text[(result >> 8) + k] == s[k])
+//@   loop * candidate 0 <= i && i <= len(s)
+//@   loop * candidate len(t) == len(s)
+//@   loop * candidate[F] forall(k, 0, i, t[k] == s[k])
+//@   loop * candidate[F] len(s) == (i#2 & 0xff) && ptr(t) == ptr(_Hash_text) + (i#2 >> 8)
+//@   loop * candidate[F] len(s) == (i#4 & 0xff) && ptr(t#2) == ptr(_Hash_text) + (i#4 >> 8)
+//@   loop * candidate[F] forall(k, 0, i#3, t[k] == s[k])
+//@   loop * candidate[F] forall(k, 0, i#5, t#2[k] == s[k])
+//@   loop * candidate 0 <= i#3 && i#3 <= len(s)
+//@   loop * candidate 0 <= i#5 && i#5 <= len(s)
+//@   loop * candidate len(t#2) == len(s)
+
+//@ func Hash.Bytes
+//@   ensures[S] true
+//@ func Hash.String
+//@   ensures[S] true
